@@ -131,6 +131,7 @@ func (r *Receiver) SegmentHandlerFunc(w http.ResponseWriter, req *http.Request) 
 	masterSegDur := ch.masterSegDuration
 	masterTimeShift := ch.masterTimeShift
 	masterSeqNrShift := ch.masterSeqNrShift
+	maxNrBufSegs := ch.maxNrBufSegs
 	ch.mu.RUnlock()
 
 	rsd := &recSegData{name: stream.trName,
@@ -179,7 +180,7 @@ func (r *Receiver) SegmentHandlerFunc(w http.ResponseWriter, req *http.Request) 
 				moof.Traf.Tfdt == nil || moof.Traf.Trun == nil {
 				return fmt.Errorf("chunk %d lacks moof, mfhd, traf, tfhd, tfdt or trun box", rsd.chunkNr)
 			}
-			trd, ok := ch.trDatas[trName]
+			trd, ok := ch.getTrData(trName)
 			if !ok {
 				return fmt.Errorf("failed to find track data trName: %s", trName)
 			}
@@ -249,8 +250,8 @@ func (r *Receiver) SegmentHandlerFunc(w http.ResponseWriter, req *http.Request) 
 						}
 					}
 				}
-				if ch.maxNrBufSegs > 0 {
-					deleteSegPath := filepath.Join(stream.trDir, fmt.Sprintf("%d%s", rsd.seqNr-ch.maxNrBufSegs, stream.ext))
+				if maxNrBufSegs > 0 {
+					deleteSegPath := filepath.Join(stream.trDir, fmt.Sprintf("%d%s", rsd.seqNr-maxNrBufSegs, stream.ext))
 					if fileExists(deleteSegPath) {
 						log.Debug("Deleting old segment", "path", deleteSegPath)
 						err = os.Remove(deleteSegPath)
@@ -330,11 +331,9 @@ func (r *Receiver) SegmentHandlerFunc(w http.ResponseWriter, req *http.Request) 
 	// Receive raw segments
 	nrRead := 0
 	nrWritten := 0
-	trD, ok := ch.trDatas[stream.trName]
-	if !ok {
+	trD, isNew := ch.getOrAddRawTrData(stream.trName)
+	if isNew {
 		log.Debug("New raw track data")
-		trD = &trData{name: stream.trName}
-		ch.trDatas[stream.trName] = trD
 	}
 
 	if trD.nrSegsReceived >= ch.receiveNrRaws && (contentLength == 0 || contentLength >= 4096) {
